@@ -6,6 +6,10 @@
                              InvMixColumns multiples, rcon = powers of x); exhaustive over all 14 x 256 + 30 entries
      tablen  name, n         table length (256; rcon 30)
      blk     key, pt, ct, dt pyaes.AES(key).encrypt(pt) = ct, .decrypt(ct) = dt: ct = FIPS-197 Cipher, InvCipher(ct) = pt = dt
+             arg, alias      The harness keeps the RETURNED OBJECTS of all calls of a history (several blocks on one cipher
+                             object) and reads them only after the last call: ct/dt are what those objects hold THEN, arg is
+                             what the argument object holds then (= pt: arguments are not modified), alias = 1 iff a result
+                             is the same mutable object as another result or as an argument (must be 0)
      dblk    key, ct, pt     pyaes.AES(key).decrypt(ct) = pt on an arbitrary block: pt = InvCipher(ct), Cipher(pt) = ct
      oblk    key, pt, ct     ORACLE: `openssl enc -aes-N-ecb -nopad` says ct: AES.tla itself must agree (both directions)
    key: 16, 24 or 32 bytes.  Total verdict, see BUILDERS.md. *)
@@ -39,12 +43,16 @@ BlkVerdict(ev) ==
          IF ev.ct # c THEN "encrypt-differs-from-fips197"
          ELSE IF ev.dt # ev.pt THEN "decrypt-does-not-invert-encrypt"
          ELSE IF DecBlockRK(rk, c) # ev.pt THEN "spec-inverse-cipher"
+         ELSE IF ev.arg # ev.pt THEN "argument-modified"
+         ELSE IF ev.alias # 0 THEN "result-object-shared-between-calls"
          ELSE "ok"
 DBlkVerdict(ev) ==
     IF ~KeyOk(ev.key) \/ Len(ev.ct) # 16 THEN "bad-event"
     ELSE LET rk == RoundKeys(ev.key)  p == DecBlockRK(rk, ev.ct) IN
          IF ev.pt # p THEN "decrypt-differs-from-fips197"
          ELSE IF EncBlockRK(rk, p) # ev.ct THEN "spec-cipher-of-inverse"
+         ELSE IF ev.arg # ev.ct THEN "argument-modified"
+         ELSE IF ev.alias # 0 THEN "result-object-shared-between-calls"
          ELSE "ok"
 OBlkVerdict(ev) ==
     IF ~KeyOk(ev.key) \/ Len(ev.pt) # 16 THEN "bad-event"
